@@ -22,6 +22,10 @@ TRANSPARENT = (
 )
 
 
+import re as _re
+_FROM_INT = _re.compile(r"^core::convert::num::<impl core::convert::From<(u8|u16|u32|u64|i8|i16|i32|i64|bool)> for (u16|u32|u64|u128|usize|i16|i32|i64|i128|isize)>::from$")
+
+
 class Sym:
     def __init__(self, f, expand_params=True):
         self.f = f
@@ -163,6 +167,10 @@ class Sym:
         args = tuple(self.operand(a) for a in t["args"])
         if len(args) == 1 and is_identity_fn(self.f.prog, c):
             return args[0]
+        # lossless integer widening spelled `T::from(x)` is the cast `x as T`
+        m = _FROM_INT.match(c)
+        if m and len(args) == 1:
+            return ("cast", args[0], m.group(2))
         return ("call", c, args, blk, tuple(t.get("gargs") or ()))
 
     def place(self, p):
